@@ -30,7 +30,7 @@ Definition card_allows (cd : card) (n : nat) : Prop :=
   | CardNone => True
   | CardMax m => m = (-1)%Z \/ (Z.of_nat n <= m)%Z
   | CardExact m => n = 0 \/ Z.of_nat n = m
-  | CardRange lo hi => hi = (-1)%Z \/ ((Z.of_nat n <= hi)%Z /\ (n = 0 \/ (lo <= Z.of_nat n)%Z))
+  | CardRange lo hi => (hi = (-1)%Z \/ (Z.of_nat n <= hi)%Z) /\ (n = 0 \/ (lo <= Z.of_nat n)%Z)
   end.
 
 (** the handler constraints of the fragment, on the abstract line *)
@@ -245,7 +245,14 @@ Qed.
 (* ------------------------------------------------------------------ *)
 (** * The run *)
 
-Definition counts (cd : card) : bool := match card_upper cd with Some _ => true | None => false end.
+(** which cardinalities count the uses (CardinalityMax with the maximum -1 does not; CardinalityRange always does,
+    since "fix: CardinalityRange counts the values also when the maximum is unlimited") *)
+Definition counts (cd : card) : bool :=
+  match cd with
+  | CardNone => false
+  | CardMax m => negb (Z.eqb m (-1))
+  | CardExact _ | CardRange _ _ => true
+  end.
 
 Record run_inv (c : cfg) (hist : list use) (s : hstate) : Prop := {
   i_len : length (arts s) = length (args c);
@@ -269,13 +276,14 @@ Lemma card_got_accepts cd n total :
   exists n1, card_got cd (if counts cd then Z.of_nat n else 0%Z) = Ok n1 /\
              n1 = (if counts cd then Z.of_nat (n + 1) else 0%Z).
 Proof.
-  unfold card_allows, counts, card_upper, card_got. intros Ha Hn.
+  unfold card_allows, counts, card_got. intros Ha Hn.
   destruct cd as [|m|m|lo hi].
   - eauto.
-  - destruct (Z.eqb_spec m (-1)); [eauto|]. destruct Ha as [Ha|Ha]; [contradiction|].
+  - destruct (Z.eqb_spec m (-1)); cbn [negb]; [eauto|]. destruct Ha as [Ha|Ha]; [contradiction|].
     destruct (Z.ltb_spec m (Z.of_nat n + 1)); [lia|]. eexists. split; [reflexivity|lia].
   - destruct Ha as [Ha|Ha]; [lia|]. destruct (Z.ltb_spec m (Z.of_nat n + 1)); [lia|]. eexists. split; [reflexivity|lia].
-  - destruct (Z.eqb_spec hi (-1)); [eauto|]. destruct Ha as [Ha|[Ha _]]; [contradiction|].
+  - destruct Ha as [Ha _]. destruct (Z.eqb_spec hi (-1)); [eexists; split; [reflexivity|lia]|].
+    destruct Ha as [Ha|Ha]; [contradiction|].
     destruct (Z.ltb_spec hi (Z.of_nat n + 1)); [lia|]. eexists. split; [reflexivity|lia].
 Qed.
 
@@ -373,10 +381,10 @@ Qed.
 Lemma card_end_accepts cd n :
   card_allows cd n -> card_end cd (if counts cd then Z.of_nat n else 0%Z) = Ok tt.
 Proof.
-  unfold card_allows, counts, card_upper, card_end. destruct cd as [|m|m|lo hi]; auto; intros H.
+  unfold card_allows, counts, card_end. destruct cd as [|m|m|lo hi]; auto; intros H.
   - destruct H as [->|H]; cbn; auto. destruct (Z.ltb_spec 0 (Z.of_nat n)); cbn; auto.
     destruct (Z.eqb_spec (Z.of_nat n) m); cbn; auto. lia.
-  - destruct (Z.eqb_spec hi (-1)); cbn; auto. destruct H as [H|[_ H]]; [contradiction|].
+  - destruct H as [_ H].
     destruct (Z.eqb_spec (Z.of_nat n) 0); cbn; auto. destruct (Z.ltb_spec (Z.of_nat n) lo); cbn; auto. lia.
 Qed.
 
